@@ -324,7 +324,7 @@ def c01enumCase (id : String) (payload : List Sexp) : List String :=
     let selected := if mode == "file" || mode == "star" then (tys.filter (·.2.1)).map (·.1) else (tys.filter (·.2.2)).map (·.1)
     let wf := blocks.all (fun b => b.all (fun s => s.names.length == s.vals.length)) && !tys.isEmpty
     let locals := match p.field? "locals" with
-      | some l => (l.args.mapM (fun bl => bl.args.mapM parseSpec)).getD []
+      | some l => (l.args.mapM (fun (bl : Sexp) => bl.args.mapM parseSpec)).getD []
       | none => []
     let pc : PkgCase := { bit := fl.hasFlag "bit", sql := fl.hasFlag "sql", gorm := fl.hasFlag "gorm",
                           types := selected, blocks := blocks, locals := locals, wellFormed := wf }
